@@ -717,6 +717,29 @@ func (c *ctx) concatCase(b *batch, l *Loaded, name string, x, y []byte) {
 	if seq != one {
 		c.disagree(Disagreement{Kind: "real!=real", Check: "concat-equals-sequential", Case: cs(), Got: map[string]string{"sequential": short(seq), "one_call": short(one)}})
 	}
+	// the same two calls reading from ONE reused buffer (a network read buffer): what was decoded from
+	// the first input must not change when the buffer is overwritten with the second. `bytes` fields
+	// alias the input by design, so this is checked for message types without any bytes field.
+	if !hasBytesField(l.File, name, map[string]bool{}) {
+		buf := make([]byte, len(x)+len(y)+8)
+		m3 := l.New[name]()
+		copy(buf, x)
+		e4, bad4 := realUnmarshal(buf[:len(x):len(x)], m3)
+		for i := range buf {
+			buf[i] = 0xAA
+		}
+		copy(buf, y)
+		e5, bad5 := realUnmarshal(buf[:len(y):len(y)], m3)
+		for i := range buf {
+			buf[i] = 0x55
+		}
+		c.count("concat_reused_buffer")
+		if bad4+bad5 != "" || e4 != "" || e5 != "" {
+			c.disagree(Disagreement{Kind: "real!=real", Check: "concat-with-reused-buffer", Case: cs(), Got: map[string]string{"real": bad4 + bad5 + e4 + e5}})
+		} else if reused := l.Reg.FromStruct(name, m3).String(); reused != seq {
+			c.disagree(Disagreement{Kind: "real!=real", Check: "concat-with-reused-buffer", Case: cs(), Got: map[string]string{"separate_buffers": short(seq), "reused_buffer": short(reused), "diff": firstDiff(seq, reused)}})
+		}
+	}
 	ref := l.Ref.New(name)
 	if hasSingularCast(l, name) {
 		c.count("concat_ref_skipped_custom_merge")
@@ -943,4 +966,31 @@ func (c *ctx) nilElementOracle(l *Loaded, name string, msg picobuf.Message, cs f
 		}
 		return
 	}
+}
+
+// hasBytesField: does message `name` (transitively) hold a `bytes` field, a map with bytes values, or
+// captured unrecognized bytes?
+func hasBytesField(f *schema.File, name string, seen map[string]bool) bool {
+	if seen[name] {
+		return false
+	}
+	seen[name] = true
+	m := f.Msg(name)
+	if m == nil {
+		return false
+	}
+	for i := range m.Fields {
+		fd := &m.Fields[i]
+		switch {
+		case fd.Kind == "bytes":
+			return true
+		case fd.Kind == "map" && fd.MapVal == "bytes":
+			return true
+		case fd.Kind == "message" && fd.Cast == "" && fd.Custom == "":
+			if hasBytesField(f, fd.Ref, seen) {
+				return true
+			}
+		}
+	}
+	return false
 }
